@@ -38,6 +38,10 @@ func main() {
 		worker(os.Args[2:])
 		return
 	}
+	if f, ok := mon.Subcommands[os.Args[1]]; ok {
+		f(os.Args[2:])
+		return
+	}
 	id := strings.ToUpper(os.Args[1])
 	p := mon.Lookup(id)
 	if p == nil {
